@@ -374,6 +374,63 @@ def cosim_one(args):
     return out
 
 
+def seq_return_seen_in_body_wait(rep, size):
+    """Basic.Return (+ its content), then a delivery's Deliver and ContentHeader arrive in one burst; the delivery's body
+    comes later, so the first error check after the Return happens inside the consuming thread's wait for body frames.
+    The delivery is handed over intact AND the returned-message error is still raised - once - by the next operation.
+    Deterministic: the body frame is dispatched from the wait loop's sleep."""
+    import types
+    import amqpstorm
+    import amqpstorm.channel as chmod
+    from amqpstorm.channel import Channel
+    from pamqp import header as pheader, body as pbody
+    conn = amqpstorm.Connection('localhost', 'guest', 'guest', lazy=True)
+    conn.set_state(3)
+    conn.write_frame = lambda cid, fr: None
+    conn.write_frames = lambda cid, frs: None
+    ch = Channel(1, conn, 1)
+    ch.set_state(3)
+    conn._channels[1] = ch
+    got = []
+    ch._consumer_callbacks['ct'] = lambda m: got.append(m._body)
+    ch.add_consumer_tag('ct')
+    burst = (spec.Basic.Return(reply_code=312, reply_text='NO_ROUTE', exchange='x', routing_key='y'),
+             pheader.ContentHeader(body_size=size, properties=spec.Basic.Properties())) + \
+        ((pbody.ContentBody(b'r' * size),) if size else ()) + \
+        (spec.Basic.Deliver(consumer_tag='ct', delivery_tag=1, exchange='', routing_key='q'),
+         pheader.ContentHeader(body_size=4, properties=spec.Basic.Properties()))
+    # first idle sleep of the consuming call: the burst arrives; next sleep (inside the wait for body frames): the body
+    arrivals = [list(burst), [pbody.ContentBody(b'body')]]
+    saved = chmod.time
+
+    def sleep(_s):
+        if arrivals:
+            for fr in arrivals.pop(0):
+                ch.on_frame(fr)
+    chmod.time = types.SimpleNamespace(sleep=sleep, time=saved.time)
+    raised = []
+    try:
+        for attempt in range(3):
+            try:
+                if attempt == 0:
+                    ch.process_data_events()
+                else:
+                    ch.check_for_errors()
+            except amqpstorm.AMQPMessageError as why:
+                raised.append(why.error_code)
+            except amqpstorm.AMQPError as why:
+                raised.append(type(why).__name__)
+    finally:
+        chmod.time = saved
+    replay = {'kind': 'seq-return-in-body-wait', 'return_size': size}
+    rep.case(('seq-return-in-body-wait', size), True, sample=replay)
+    if got != [b'body']:
+        rep.violation('C07/delivery-damaged-next-to-return', 'the delivery behind a returned message was handed over as %r' % (got,), replay)
+    elif raised != [312]:
+        rep.violation('C07/returned-message-not-raised-once', 'a returned mandatory message first seen while the consumer waited for body frames was '
+                      'raised %r over the next three operations (expected exactly one AMQPMessageError 312)' % (raised,), replay)
+
+
 def check(rep):
     rng = random.Random(common.seed() * 7919 + 7)
     thorough = rep.tier == 'thorough'
@@ -393,6 +450,8 @@ def check(rep):
         from amqpstorm.exception import AMQPChannelError
         lines.append('c07.errortype %d' % code)
         expect.append(AMQPChannelError('x', reply_code=code).error_type)
+    for size in (0, 5, 300):
+        seq_return_seen_in_body_wait(rep, size)
     jobs = []
     for _ in range(90 if not thorough else 2500):
         ev = rng.choice(['chan-close', 'conn-close', 'conn-close', 'return'])
